@@ -1,0 +1,16 @@
+//go:build verif && race
+// +build verif,race
+
+package decimal
+
+// verifCount counts a hit of site. Under the race detector an atomic counter
+// shared by all goroutines would be a synchronisation point at every site: the
+// detector would see a happens-before edge from each hit to the next one and
+// stop reporting races between the code around them. The counter is therefore
+// a plain increment that the detector does not look at; concurrent hits may be
+// lost, the counts are lower bounds.
+//
+//go:norace
+func verifCount(site int) {
+	VerifHits[site]++
+}
